@@ -167,16 +167,19 @@ pub fn main(args: &[String]) -> i32 {
                 let mut evs = vec![json!({"g": "reset", "label": label, "objects_out": n_out})];
                 // the object list the difficulty calculation works on, after the mods that rewrite it (HoldOff, Invert, Random):
                 // hook event `mania_difficulty_objects`, projected to columns and time ranks
-                for (xi, extra) in ["", "IN", "HO", "IN,HO", "RD"].iter().enumerate() {
+                for (xi, extra) in ["", "IN", "HO", "IN,HO", "RD", "IN+RD", "HO+RD"].iter().enumerate() {
                     if (i + xi) % 2 == 1 && !extra.is_empty() {
                         continue;
                     }
                     let mut cfg = if k == 0 { crate::settings::Cfg::default() } else { crate::settings::Cfg::default().with_acronyms(&format!("{k}K")) };
-                    if *extra == "RD" {
-                        cfg.random_seed = Some(3 + i as i32);
-                    } else if !extra.is_empty() {
+                    let acr = extra.split('+').next().filter(|a| *a != "RD").unwrap_or("");
+                    if !acr.is_empty() {
                         let base = cfg.acronyms.clone().unwrap_or_default();
-                        cfg = cfg.with_acronyms(&if base.is_empty() { extra.to_string() } else { format!("{base},{extra}") });
+                        cfg = cfg.with_acronyms(&if base.is_empty() { acr.to_string() } else { format!("{base},{acr}") });
+                    }
+                    if extra.contains("RD") {
+                        // the order in which Random and Invert / HoldOff rewrite the list matters
+                        cfg.random_seed = Some(3 + i as i32);
                     }
                     rosu_pp::verif::trace::start();
                     let r = guarded(|| rosu_pp::Difficulty::new().mods(cfg.game_mods()).calculate_for_mode::<rosu_pp::mania::Mania>(&map).is_ok());
